@@ -10,9 +10,11 @@ allocation trace (`Res.allocs`, the length the buffer is grown to).  `io.ReadFul
 stream is chunked by construction; that the code touches the stream through `io.ReadFull` only is a
 regenerated fact (`readsOnlyViaReadFull`).
 
-All constants come through a `Cfg` that C16 and C17 each build from their own regenerated facts
-(`TdModel.C16.cfg`, `TdModel.C17.cfg`); the lemmas are proved for `Cfg.spec` (the specification's
-literals) and the property files prove `cfg = Cfg.spec`.  `Cfg.pinned` is the tree before the
+All integer decisions and arithmetic (length checks, the abridged switch, slice bounds of the full
+reader, padding) come through a `Cfg` of *functions* that C16 and C17 each fill with the Go
+expressions translated from the current source (`TdModel.C16.cfg`, `TdModel.C17.cfg`); the lemmas are
+proved for `Cfg.spec` (the specification's literals) and the property files prove `cfg = Cfg.spec`
+by arithmetic, field by field.  `Cfg.pinned` is the tree before the
 `fix:` commits (no guards, no envelope allowance) and is used for the counterexample theorems only.
 
 `crc : Bytes → Nat` (hash/crc32.ChecksumIEEE) is a parameter.
@@ -22,47 +24,103 @@ import TdModel.Model.Bin
 namespace TdModel.Codec
 open TdModel TdModel.Bin
 
-structure Cfg where
-  /-- `codec.maxMessageSize` -/
-  maxMsg : Nat
-  /-- `writeAbridged`: `encodeLength < 127` -/
-  abrThrW : Nat
-  /-- `readAbridged`: `b.Buf[0] >= 127` -/
-  abrThrR : Nat
+/-- The integer decisions and arithmetic of the codecs.  `TdModel.C16.cfg` / `TdModel.C17.cfg` fill
+every function field with the *translation of the corresponding Go expression* regenerated from
+the source (`harness/c16c17/semantic.go`); `Cfg.spec` states them with the specification's literals. -/
+@[ext] structure Cfg where
+  /-- `readLen`: `n <= 0 || n > maxMessageSize+envelope` (length word `n`, caller's `envelope`) -/
+  lenRejects : Nat → Nat → Bool
+  /-- `checkOutgoingMessage`: `length > maxMessageSize || length == 0` -/
+  outRejects : Nat → Bool
+  /-- `checkAlign(b, 4)`: `length%4 != 0` -/
+  misaligned : Nat → Bool
+  /-- `checkProtocolError`: `b.Len() == bin.Word` -/
+  isCode : Nat → Bool
+  /-- `writeAbridged`: `encodeLength := b.Len() >> 2` -/
+  abrWords : Nat → Nat
+  /-- `writeAbridged`: `encodeLength < 127` (one length byte) -/
+  abrShort : Nat → Bool
   /-- `writeAbridged`: `buf[0] = 0x7f` -/
   abrMark : Nat
-  /-- `readAbridged` rejects `n<<2 > maxMessageSize` before `ResetN` (fix for D6) -/
-  abrGuard : Bool
-  /-- `readFull` rejects `n < fullMin` before `Expand` (fix for D6); `fullMin = 3*bin.Word` -/
-  fullGuard : Bool
-  fullMin : Nat
-  /-- envelope the full reader allows on top of `maxMessageSize` (`3*bin.Word` after the fix, 0 before) -/
-  fullOver : Nat
-  /-- padding the padded-intermediate reader allows on top of `maxMessageSize` (3 after the fix) -/
-  padOver : Nat
+  /-- `readAbridged`: `b.Buf[0] >= 127` (three more length bytes follow) -/
+  abrLong : Nat → Bool
+  /-- `readAbridged`: the guard before `ResetN` (`n<<2 > maxMessageSize`; constantly false when absent) -/
+  abrRejects : Nat → Bool
+  /-- `readAbridged`: argument of `b.ResetN` (`n << 2`) -/
+  abrBytes : Nat → Int
+  /-- `readFull`: the guard before `Expand` (`n < 3*bin.Word`; constantly false when absent) -/
+  fullRejects : Nat → Bool
+  /-- `readFull`: envelope argument of `readLen` (`3*bin.Word`; 0 when absent) -/
+  fullEnvelope : Nat
+  /-- `readFull`: argument of `b.Expand` (`n - bin.Word`) -/
+  fullExpand : Nat → Int
+  /-- `readFull`: `inner := b.Buf[bin.Word:n]` -/
+  fullInnerLo : Nat → Int
+  fullInnerHi : Nat → Int
+  /-- `readFull`: `payloadLength := n - 3*bin.Word` -/
+  fullPayload : Nat → Int
+  /-- `readFull`: CRC input `b.Buf[0 : n-bin.Word]` -/
+  fullCrcLo : Nat → Int
+  fullCrcHi : Nat → Int
+  /-- `readFull`: `copy(b.Buf, b.Buf[2*bin.Word:n-bin.Word])` -/
+  fullCopyLo : Nat → Int
+  fullCopyHi : Nat → Int
+  /-- `writeFull`: the length word `4 + 4 + b.Len() + 4` -/
+  fullWire : Nat → Nat
+  /-- `readIntermediate`: envelope when `padding` (3; 0 when absent) -/
+  padEnvelope : Nat
+  /-- `writePaddedIntermediate`: `int(b.Buf[length-1]) % 4` -/
+  padOf : Nat → Nat
+  /-- `readIntermediate` / `readPaddedIntermediate`: `n % 4` -/
+  padStrip : Nat → Nat
   tagAbridged : Bytes
   tagIntermediate : Bytes
   tagPadded : Bytes
-  deriving Repr, DecidableEq
 
 /-- The specification's literals (the repaired tree). -/
 def Cfg.spec : Cfg where
-  maxMsg := 16777216
-  abrThrW := 127
-  abrThrR := 127
+  lenRejects := fun n e => decide (n = 0 ∨ n > 16777216 + e)
+  outRejects := fun l => decide (l > 16777216 ∨ l = 0)
+  misaligned := fun l => decide (l % 4 ≠ 0)
+  isCode := fun l => decide (l = 4)
+  abrWords := fun l => l / 4
+  abrShort := fun w => decide (w < 127)
   abrMark := 127
-  abrGuard := true
-  fullGuard := true
-  fullMin := 12
-  fullOver := 12
-  padOver := 3
+  abrLong := fun b0 => decide (b0 ≥ 127)
+  abrRejects := fun n => decide (n * 4 > 16777216)
+  abrBytes := fun n => (n : Int) * 4
+  fullRejects := fun n => decide (n < 12)
+  fullEnvelope := 12
+  fullExpand := fun n => (n : Int) - 4
+  fullInnerLo := fun _ => 4
+  fullInnerHi := fun n => n
+  fullPayload := fun n => (n : Int) - 12
+  fullCrcLo := fun _ => 0
+  fullCrcHi := fun n => (n : Int) - 4
+  fullCopyLo := fun _ => 8
+  fullCopyHi := fun n => (n : Int) - 4
+  fullWire := fun l => l + 12
+  padEnvelope := 3
+  padOf := fun last => last % 4
+  padStrip := fun n => n % 4
   tagAbridged := [0xef]
   tagIntermediate := [0xee, 0xee, 0xee, 0xee]
   tagPadded := [0xdd, 0xdd, 0xdd, 0xdd]
 
-/-- The tree as pinned (before `fix:` commits for D6 and the frame-limit envelope). -/
+/-- The fields the readers use, the others replaced by the specification's: `read c = read c.readerPart`
+by unfolding, so a statement about reading depends on the reader's expressions only. -/
+def Cfg.readerPart (c : Cfg) : Cfg :=
+  { Cfg.spec with
+    lenRejects := c.lenRejects, isCode := c.isCode, abrLong := c.abrLong, abrRejects := c.abrRejects,
+    abrBytes := c.abrBytes, fullRejects := c.fullRejects, fullEnvelope := c.fullEnvelope,
+    fullExpand := c.fullExpand, fullInnerLo := c.fullInnerLo, fullInnerHi := c.fullInnerHi,
+    fullPayload := c.fullPayload, fullCrcLo := c.fullCrcLo, fullCrcHi := c.fullCrcHi,
+    fullCopyLo := c.fullCopyLo, fullCopyHi := c.fullCopyHi, padEnvelope := c.padEnvelope,
+    padStrip := c.padStrip }
+
+/-- The tree as pinned (before the `fix:` commits for D6 and the frame-limit envelope). -/
 def Cfg.pinned : Cfg :=
-  { Cfg.spec with abrGuard := false, fullGuard := false, fullOver := 0, padOver := 0 }
+  { Cfg.spec with abrRejects := fun _ => false, fullRejects := fun _ => false, fullEnvelope := 0, padEnvelope := 0 }
 
 inductive Kind where
   | abridged | intermediate | padded | full
@@ -134,66 +192,67 @@ def readN (n : Nat) (s : Bytes) (k : Bytes → Bytes → Res) : Res :=
 def maxAlloc (r : Res) : Nat := r.allocs.foldl max 0
 end Res
 
-/-- `codec.readLen` (`limit` = `maxMessageSize` plus the envelope the caller allows). -/
-def readLen (limit : Nat) (s : Bytes) (k : Nat → Bytes → Res) : Res :=
+/-- `codec.readLen`. -/
+def readLen (cfg : Cfg) (envelope : Nat) (s : Bytes) (k : Nat → Bytes → Res) : Res :=
   Res.alloc 4 <| Res.readN 4 s fun lenB s1 =>
   let n := fromLE lenB
-  if n = 0 ∨ n > limit then Res.err (.badLen n) else k n s1
+  if cfg.lenRejects n envelope then Res.err (.badLen n) else k n s1
 
 /-- `codec.readIntermediate`. -/
 def readIntermediate (cfg : Cfg) (padding : Bool) (s : Bytes) : Res :=
-  readLen (cfg.maxMsg + (if padding then cfg.padOver else 0)) s fun n s1 =>
+  readLen cfg (if padding then cfg.padEnvelope else 0) s fun n s1 =>
   Res.make n fun m => Res.alloc m <| Res.readN m s1 fun payload s2 =>
-  if padding then Res.slice payload 0 ((n : Int) - (n % 4 : Nat)) fun p => Res.ok p s2
+  if padding then Res.slice payload 0 ((n : Int) - (cfg.padStrip n : Nat)) fun p => Res.ok p s2
   else Res.ok payload s2
 
 /-- `codec.readPaddedIntermediate` (its second trim is the identity on an aligned buffer, but is
 modelled: `b.Buf[:b.Len()-b.Len()%4]`). -/
 def readPadded (cfg : Cfg) (s : Bytes) : Res :=
   match readIntermediate cfg true s with
-  | ⟨a, .ok p rest⟩ => Res.slice p 0 ((p.length : Int) - (p.length % 4 : Nat)) fun q => ⟨a, .ok q rest⟩
+  | ⟨a, .ok p rest⟩ => Res.slice p 0 ((p.length : Int) - (cfg.padStrip p.length : Nat)) fun q => ⟨a, .ok q rest⟩
   | r => r
 
 /-- `codec.readAbridged`.  The 4-byte scratch buffer is zeroed by `ResetN`, so `b.Int()` sees the
-one length byte, or — when it is `≥ 127` — the next three bytes, with a zero top byte. -/
+one length byte, or — when `abrLong` — the next three bytes, with a zero top byte. -/
 def readAbridged (cfg : Cfg) (s : Bytes) : Res :=
   Res.alloc 4 <| Res.readN 1 s fun b0 s1 =>
   let cont (n : Nat) (s2 : Bytes) : Res :=
-    if cfg.abrGuard ∧ n * 4 > cfg.maxMsg then Res.err (.badLen (n * 4))
-    else Res.make ((n : Int) * 4) fun m => Res.alloc m <| Res.readN m s2 fun payload s3 => Res.ok payload s3
-  if fromLE b0 ≥ cfg.abrThrR then Res.readN 3 s1 fun l3 s2 => cont (fromLE l3) s2
+    if cfg.abrRejects n then Res.err (.badLen (cfg.abrBytes n).toNat)
+    else Res.make (cfg.abrBytes n) fun m => Res.alloc m <| Res.readN m s2 fun payload s3 => Res.ok payload s3
+  if cfg.abrLong (fromLE b0) then Res.readN 3 s1 fun l3 s2 => cont (fromLE l3) s2
   else cont (fromLE b0) s1
 
 /-- `codec.readFull`; `seq` is the reader's counter value for this frame. -/
 def readFull (cfg : Cfg) (crc : Bytes → Nat) (seq : Int) (s : Bytes) : Res :=
-  readLen (cfg.maxMsg + cfg.fullOver) s fun n s1 =>
-  if cfg.fullGuard ∧ n < cfg.fullMin then Res.err (.badLen n) else
+  readLen cfg cfg.fullEnvelope s fun n s1 =>
+  if cfg.fullRejects n then Res.err (.badLen n) else
   -- b.PutInt(n); b.Expand(n - bin.Word)
-  Res.alloc 8 <| Res.make ((n : Int) - 4) fun e => Res.alloc (8 + e) <|
-  -- inner := b.Buf[bin.Word:n]  (a view of the 8+e byte buffer)
-  Res.slice (zeros (8 + e)) 4 n fun innerView =>
+  Res.alloc 8 <| Res.make (cfg.fullExpand n) fun e => Res.alloc (8 + e) <|
+  let buf0 := leN 4 n ++ leN 4 n ++ zeros e
+  -- inner := b.Buf[bin.Word:n]  (a view into the buffer)
+  Res.slice buf0 (cfg.fullInnerLo n) (cfg.fullInnerHi n) fun innerView =>
   Res.readN innerView.length s1 fun inner s2 =>
-  let buf := leN 4 n ++ inner ++ zeros (8 + e - 4 - inner.length)
+  let buf := buf0.take (cfg.fullInnerLo n).toNat ++ inner ++ buf0.drop (cfg.fullInnerHi n).toNat
   -- serverSeqNo, err := inner.Int()
   if inner.length < 4 then Res.err .ueof else
   if toInt32 (fromLE (inner.take 4)) ≠ seq then Res.err .seqMismatch else
   -- inner.Skip(payloadLength)
-  Res.slice (inner.drop 4) ((n : Int) - 12) (inner.drop 4).length fun tail =>
+  Res.slice (inner.drop 4) (cfg.fullPayload n) (inner.drop 4).length fun tail =>
   -- crc, err := inner.Uint32()
   if tail.length < 4 then Res.err .ueof else
-  Res.slice buf 0 ((n : Int) - 4) fun crcIn =>
+  Res.slice buf (cfg.fullCrcLo n) (cfg.fullCrcHi n) fun crcIn =>
   if fromLE (tail.take 4) ≠ crc crcIn then Res.err .crcMismatch else
   -- copy(b.Buf, b.Buf[2*bin.Word:n-bin.Word]); b.Buf = b.Buf[:payloadLength]
-  Res.slice buf 8 ((n : Int) - 4) fun payload =>
-  Res.slice payload 0 ((n : Int) - 12) fun frame => Res.ok frame s2
+  Res.slice buf (cfg.fullCopyLo n) (cfg.fullCopyHi n) fun payload =>
+  Res.slice payload 0 (cfg.fullPayload n) fun frame => Res.ok frame s2
 
 /-- `-code` on an `int32`. -/
 def negInt32 (v : Nat) : Int := toInt32 (ofInt32 (- toInt32 v))
 
 /-- `codec.checkProtocolError`: a four-byte frame is a transport error code. -/
-def checkProto (r : Res) : Res :=
+def checkProto (cfg : Cfg) (r : Res) : Res :=
   match r with
-  | ⟨a, .ok p rest⟩ => if p.length = 4 then ⟨a, .err (.proto (negInt32 (fromLE p)))⟩ else ⟨a, .ok p rest⟩
+  | ⟨a, .ok p rest⟩ => if cfg.isCode p.length then ⟨a, .err (.proto (negInt32 (fromLE p)))⟩ else ⟨a, .ok p rest⟩
   | r => r
 
 /-- The unexported readers. -/
@@ -206,7 +265,7 @@ def readRaw (cfg : Cfg) (crc : Bytes → Nat) (k : Kind) (seq : Int) (s : Bytes)
 
 /-- `Codec.Read` of each protocol. -/
 def read (cfg : Cfg) (crc : Bytes → Nat) (k : Kind) (seq : Int) (s : Bytes) : Res :=
-  checkProto (readRaw cfg crc k seq s)
+  checkProto cfg (readRaw cfg crc k seq s)
 
 /-! ## Writers -/
 
@@ -220,14 +279,15 @@ def WErr.tag : WErr → String
 
 /-- `writeAbridged`'s length prefix. -/
 def abridgedHead (cfg : Cfg) (len : Nat) : Bytes :=
-  if len / 4 < cfg.abrThrW then [UInt8.ofNat (len / 4)] else UInt8.ofNat cfg.abrMark :: leN 3 (len / 4)
+  if cfg.abrShort (cfg.abrWords len) then [UInt8.ofNat (cfg.abrWords len)]
+  else UInt8.ofNat cfg.abrMark :: leN 3 (cfg.abrWords len)
 
 /-- `writePaddedIntermediate`'s padding length: the *last payload byte* mod 4. -/
-def padLenB (last : UInt8) : Nat := last.toNat % 4
+def padLenB (cfg : Cfg) (last : UInt8) : Nat := cfg.padOf last.toNat
 
 def lastByte (p : Bytes) : UInt8 := p.getLast?.getD 0
 
-def padLen (p : Bytes) : Nat := padLenB (lastByte p)
+def padLen (cfg : Cfg) (p : Bytes) : Nat := padLenB cfg (lastByte p)
 
 /-- What precedes the payload on the wire; depends on the payload only through its length and its
 last byte. -/
@@ -235,26 +295,26 @@ def encHead (cfg : Cfg) (k : Kind) (seq : Int) (len : Nat) (last : UInt8) : Byte
   match k with
   | .abridged => abridgedHead cfg len
   | .intermediate => putU32 len
-  | .padded => putU32 (len + padLenB last)
-  | .full => putU32 (len + 12) ++ putU32 (ofInt32 seq)
+  | .padded => putU32 (len + padLenB cfg last)
+  | .full => putU32 (cfg.fullWire len) ++ putU32 (ofInt32 seq)
 
 /-- What follows the payload: padding (`rnd` = the four bytes drawn from the random source by
 `writePaddedIntermediate`) or the CRC of everything before it. -/
-def encTail (crc : Bytes → Nat) (k : Kind) (rnd : Bytes) (headAndPayload : Bytes) (last : UInt8) : Bytes :=
+def encTail (cfg : Cfg) (crc : Bytes → Nat) (k : Kind) (rnd : Bytes) (headAndPayload : Bytes) (last : UInt8) : Bytes :=
   match k with
-  | .padded => rnd.take (padLenB last)
+  | .padded => rnd.take (padLenB cfg last)
   | .full => putU32 (crc headAndPayload)
   | _ => []
 
 /-- Bytes put on the wire by `Codec.Write` (without the validity checks). -/
 def encRaw (cfg : Cfg) (crc : Bytes → Nat) (k : Kind) (seq : Int) (rnd : Bytes) (p : Bytes) : Bytes :=
   let hp := encHead cfg k seq p.length (lastByte p) ++ p
-  hp ++ encTail crc k rnd hp (lastByte p)
+  hp ++ encTail cfg crc k rnd hp (lastByte p)
 
 /-- `checkOutgoingMessage` + `checkAlign` + write. -/
 def enc (cfg : Cfg) (crc : Bytes → Nat) (k : Kind) (seq : Int) (rnd : Bytes) (p : Bytes) : Except WErr Bytes :=
-  if p.length > cfg.maxMsg ∨ p.length = 0 then .error (.badLen p.length)
-  else if k ≠ .full ∧ p.length % 4 ≠ 0 then .error .notAligned
+  if cfg.outRejects p.length then .error (.badLen p.length)
+  else if k ≠ .full ∧ cfg.misaligned p.length then .error .notAligned
   else .ok (encRaw cfg crc k seq rnd p)
 
 /-- The stream written for a list of payloads, counters `seq, seq+1, …` (`rnd i` = random source of
